@@ -218,7 +218,8 @@ def run_case(cx, case):
 
         t = threading.Thread(target=send, daemon=True)
         t.start()
-        t.join(case.get("watchdog", 4.0))
+        pieces = sum(len(e) for e in encs) / max(1, min(chunks))
+        t.join(case.get("watchdog", 5.0 + 0.3 * len(encs) + 4 * pieces * (case["jitter"] or 0.0001)))
         finished = not t.is_alive()
         # let the receiver's dispatcher hand the message over
         limit = time.time() + 0.5
